@@ -378,14 +378,19 @@ def _name_mismatch(Pt, tree):
                     return r
     if t == "reversed":
         return None    # only judged through _cql_from_cass_type at the top
-    got = _collapse_frozen(_squash(Pt.cql_parameterized_type()))
+    raw = Pt.cql_parameterized_type()
+    got = _collapse_frozen(_squash(raw))
     want = _collapse_frozen(_squash(to_cql(tree)))
+    if t in ("composite", "dynamic", "custom"):
+        # a quoted class string: Cassandra's TypeParser skips blanks, so they do not count
+        got, want = "".join(got.split()), "".join(want.split())
     if got == want:
         return None
     feat = t
     if t == "udt":
-        feat = "udt-name:" + _name_class(tree["name"])
-    return (feat, got, want)
+        # one root cause for every name that needs quoting: the name is printed bare
+        feat = "udt-name:needs-quotes" if cqllex.needs_quotes(tree["name"]) else "udt-name:" + _name_class(tree["name"])
+    return (feat, raw, to_cql(tree))
 
 
 # ---------------------------------------------------------------------------------------------
@@ -623,6 +628,8 @@ def interpret_cqlstring(case, ctx):
         py = C.cqltype_to_python(s)
         back = C.python_to_cqltype(py)
         ctx.check(_squash(back) == _squash(s), ["C28.cqltype_roundtrip", feat], "%r -> %r -> %r" % (s, py, back))
+    if ctx._failures:
+        return    # strip_frozen is built on the two functions above: same root cause, one key
     with ctx.driver(["C28.strip_frozen", feat]):
         got = C.strip_frozen(s)
         want = to_cql(remove_frozen(tree), descriptor=False)
@@ -631,14 +638,11 @@ def interpret_cqlstring(case, ctx):
 
 def s_cqlstring_case():
     names, fnames = _names()
-    tricky = st.sampled_from(["frozenx", "frozen_t", "xfrozen", "Frozen", "frozen"])   # UDT names around the word
+    tricky = st.sampled_from(["frozenx", "frozen_t", "xfrozen", "Frozen", "frozen x"])   # UDT names around the word
     names2 = st.lists(st.one_of(tricky, st.sampled_from(_PLAIN_NAMES)), min_size=1, max_size=3)
     t1 = st.builds(_rename, V.type_trees(max_depth=_max_depth()), names, fnames)
     t2 = st.builds(_rename, V.type_trees(max_depth=2), names2, fnames)
-    custom = st.sampled_from(_CUSTOM).map(lambda c: {"t": "custom", "cls": c})
-    t3 = st.one_of(custom.map(lambda x: {"t": "list", "of": x}), custom,
-                   custom.map(lambda x: {"t": "map", "k": {"t": "int"}, "v": {"t": "frozen", "of": {"t": "list", "of": x}}}))
-    tree = st.one_of(t1, t1, t1, t2, t3).map(_no_reversed)
+    tree = st.one_of(t1, t1, t1, t2).map(_no_reversed)
     return st.fixed_dictionaries({"tree": tree, "ws": st.one_of(st.just(-1), st.just(0), st.integers(1, 2 ** 24 - 1))})
 
 
@@ -678,7 +682,7 @@ def interpret_small(case, ctx):
 
 def parts(tier):
     return [
-        hyp_part("descriptor", s_descriptor_case, interpret_descriptor, tier, quick=450, thorough=2500, quick_shards=6),
-        hyp_part("cqlstring", s_cqlstring_case, interpret_cqlstring, tier, quick=600, thorough=2500, quick_shards=4, thorough_shards=8),
+        hyp_part("descriptor", s_descriptor_case, interpret_descriptor, tier, quick=250, thorough=2500, quick_shards=6),
+        hyp_part("cqlstring", s_cqlstring_case, interpret_cqlstring, tier, quick=500, thorough=2500, quick_shards=2, thorough_shards=8),
         EnumPart("small", _small_chunks(), _small_cases, interpret_small),
     ]
